@@ -101,6 +101,52 @@ def constructors_clause(chk, F, roles):
     chk.floor('pnm_constructors', 8, n)
 
 
+SHORTHANDS = {'nrpn': (0, 0, 127), 'nrpn_14_bit': (0, 1, 16383), 'rpn': (1, 0, 127), 'rpn_14_bit': (1, 1, 16383)}
+
+
+def shorthand_clause(chk, F, roles):
+    """test_util::{nrpn, nrpn_14_bit, rpn, rpn_14_bit}: panic exactly out of range, otherwise the data-entry message of the arguments"""
+    cfg = F.cfg
+    for name, (reg, is14, vmax) in sorted(SHORTHANDS.items()):
+        fk = 'test_util::' + name
+        key = '%s/shorthand/%s/%s' % (PID, cfg, name)
+
+        def ev(fk=fk, key=key, reg=reg, is14=is14, vmax=vmax):
+            if fk not in F.fns:
+                return chk.ob(key, 'constructor fields', 'unproven', why='%s not found' % fk)
+            I = Interp(F)
+            st = I.new_state()
+            args = entry_args(I, st, F.fns[fk], [])
+            outs = I.run(fk, args, [], st)
+            want = [VS(0, 15), VS(0, 16383), VS(0, vmax)]
+            acc = [VS.of([]), VS.of([]), VS.of([])]
+            status, why = 'proved', ''
+            for o in outs:
+                vs = [vs_of(a.term, o.st.cons) for a in args]
+                if o.kind == 'return':
+                    acc = [x.join(v) for x, v in zip(acc, vs)]
+                    wantf = {'channel': args[0].term, 'number': args[1].term, 'value': args[2].term, 'is_registered': C(reg), 'is_14_bit': C(is14)}
+                    for role, wt in wantf.items():
+                        g = H.scalar_of(A.get_path(o.value, roles[(PNM, role)]))
+                        if g is None or not H.same(g.term, wt, o.st.cons):
+                            status, why = 'refuted', '%s is %r' % (role, g)
+                    g = A.get_path(o.value, roles[(PNM, 'data_type')])
+                    if not isinstance(g, Ag) or H.variant_name(F, g) != 'DataEntry':
+                        status, why = 'refuted', 'data type %r' % (g,)
+                    if any(not v.subset(w) for v, w in zip(vs, want)):
+                        status, why = 'refuted', 'returns for out-of-range arguments %r' % (vs,)
+                elif o.kind == 'panic':
+                    if all(not v.meet(w).empty() for v, w in zip(vs, want)):
+                        status, why = 'refuted', 'panics although every argument can be in range: %r' % (vs,)
+                else:
+                    status, why = 'unproven', o.kind
+            if status == 'proved' and acc != want:
+                status, why = 'refuted', 'accepted arguments %r, expected %r' % (acc, want)
+            chk.ob(key, 'constructor fields', status, subject=fn_subject(F, fk), expected='data entry message of the arguments; panic exactly out of range',
+                   found=sorted(set(o.kind for o in outs)), why=why)
+        guarded(chk, key, 'constructor fields', ev)
+
+
 def expected_slots(ch, number, value, reg, is14, dt, order, cons):
     num = [(101 if reg else 99, H.t_high7(number, cons)), (100 if reg else 98, H.t_low7(number, cons))]
     if dt == 'DataEntry':
@@ -237,5 +283,6 @@ def run(tier, cmd):
         guarded(chk, '%s/constructors/%s' % (PID, cfg), 'constructor fields', lambda F=F: constructors_clause(chk, F, roles))
         if all(v is not None for k, v in roles.items() if k[0] == PNM):
             guarded(chk, '%s/encoder/%s' % (PID, cfg), 'encoder table', lambda F=F: encoder_clause(chk, F, roles))
+            guarded(chk, '%s/shorthand/%s' % (PID, cfg), 'constructor fields', lambda F=F: shorthand_clause(chk, F, roles))
         guarded(chk, '%s/invariant/%s' % (PID, cfg), 'struct invariant at construction site', lambda F=F: invariant_clause(chk, F, PNM, 'ParameterNumberMessage'))
     return chk.finish()
